@@ -50,9 +50,13 @@ def main():
         summary = re.sub(r'\s+', ' ', m.get('summary', '')).replace('|', '/')
         summary = summary[:200] + ('...' if len(summary) > 200 else '')
         other = {c: rc for c, rc in v.items() if rc not in (0, 1, 2)}
-        hrows.append('| %s | %s | %s | %d HELD, %s VIOLATION, %s UNDECIDED%s |' % (os.path.basename(d), ', '.join(m.get('files', []))[:60], summary, sum(1 for rc in v.values() if rc == 0),
-                                                                               ', '.join(r.get('violations', [])) or 'no', ', '.join(r.get('undecided', [])) or 'no',
-                                                                               (', crashed: %s' % sorted(other)) if other else ''))
+        if not v:
+            hrows.append('| %s | %s | %s | %s |' % (os.path.basename(d), ', '.join(m.get('files', []))[:60], summary, r.get('stale', 'not run')))
+            continue
+        hrows.append('| %s | %s | %s | %d HELD, %s VIOLATION, %s UNDECIDED%s%s |' % (os.path.basename(d), ', '.join(m.get('files', []))[:60], summary, sum(1 for rc in v.values() if rc == 0),
+                                                                                 ', '.join(r.get('violations', [])) or 'no', ', '.join(r.get('undecided', [])) or 'no',
+                                                                                 (', crashed: %s' % sorted(other)) if other else '',
+                                                                                 (' - ' + r['stale']) if r.get('stale') else ' (on /repo %s)' % r.get('repo_head', '?')))
     htable = ['### Behaviour-preserving refactorings (all 20 checks on each; a VIOLATION would be a false alarm)', '',
               '| refactoring | files | what was refactored | verdicts of the 20 checks |', '|---|---|---|---|'] + hrows
     p = os.path.join(HERE, 'DESIGN.md')
